@@ -172,6 +172,24 @@ def check_c02(run):
                     bad('C02/recorded-PSD-vs-density/' + tag + ('/negative-class' if len(neg) else ''), n,
                         'reported density %r but the PSD recorded for the step sums to %r; %d classes with 0<n<1 hold %r, %d negative classes hold %r'
                         % (M0, M0r, len(sub), float(np.sum(sub)), len(neg), float(np.sum(neg))))
+            # against the live distribution an observer sees right after the step (coupling-model slot).  Only on steps on which
+            # neither the grid nor the driving-force stability limit changed: then the end-of-step clean-up applies exactly the
+            # thresholds the row was computed with (classes < 1 particle, below the stability limit, below minRadius), so the
+            # two distributions may differ by the documented "< 1 particle" removal only.  (Re-meshing legitimately changes the
+            # zeroth/first moment, and a rebuilt lookup table moves the stability limit.)
+            post = row.get('post')
+            if post is not None and len(post['psd'][p]) == len(x) and int(post['rdf'][p]) == int(mb['rdf'][p]) \
+                    and np.array_equal(post['bounds'][p], mb['bounds'][p]) and M0 >= m.constraints.minNucleateDensity:
+                px = post['psd'][p]
+                sub = x[(x > 0) & (x < 1)]
+                P0 = float(np.sum(px))
+                lo0 = -float(np.sum(sub)) * (1 + 1e-9) - 1e-12 * abs(M0)
+                stats['live_rows'] = stats.get('live_rows', 0) + 1
+                if not (lo0 <= P0 - M0 <= 1e-12 * abs(M0)):
+                    gone = np.nonzero((x >= 1) & (px == 0))[0]
+                    bad('C02/live-PSD-vs-density/' + tag, n, 'reported density %r but the distribution after the step sums to %r (%d classes with '
+                        '0<n<1 hold %r); classes holding >= 1 particle that vanished: %s (radii %s), minRadius %r'
+                        % (M0, P0, len(sub), float(np.sum(sub)), gone[:5].tolist(), r[gone[:5]].tolist(), m.constraints.minRadius))
             # step to step
             prev = mon.rows[n - 1]['post']
             Nplus = float(np.sum(prev['psd'][p]))
